@@ -118,6 +118,9 @@ def check(run, model, tier):
     okc = any(isinstance(it.context_expr, ast.Call) and norm(it.context_expr.func) == chart + '.signal_callback' and norm(it.context_expr.args[0]) == ev
               for w in withs for it in w.items if isinstance(it.context_expr, ast.Call) and it.context_expr.args)
     run.inst('TEMPLATE.protocol', bh, 'the callback comes from the signal registry for this event', okc, 'signal_callback(e, name) is no longer consulted', obligation=True)
+    run.rule('REG.per-instance', 'the callback / parent registries (and every other container the chart classes fill through self) belong to the instance, not to the class')
+    from sa import ident as _ident
+    _ident.check_per_instance_state(run, model, 'REG.per-instance', ['HsmEventProcessor', 'InstrumentedHsmEventProcessor', 'HsmWithQueues', 'ActiveObject', 'Factory'])
     # ---- TABLE.registries
     sc = hq.methods.get('signal_callback')
     pc = hq.methods.get('parent_callback')
